@@ -199,6 +199,14 @@ class Shadow:
             self.byname[o].popitem()
         elif k == "dc":
             self.byname[o] = {}
+        elif k in ("rv", "so", "kr"):
+            self.kids[o] = self.kids[o][::-1]
+        elif k == "ro":
+            self.kids[o] = self.kids[o][1:] + self.kids[o][:1]
+        elif k in ("kp", "kc"):
+            self.kids[o] = self.kids[o][a[1]:] + self.fresh(a[2])
+        elif k == "bd":
+            self.byname[o] = dict(reversed(list(self.byname[o].items())[a[1]:]))
         elif k in ("pv", "px"):
             pass
         else:
@@ -215,6 +223,22 @@ def _op_on(rng, sh, o, a, cap, eq=False):
     if a == "k":
         n = len(sh.kids[o])
         r = rng.random()
+        if n and rng.random() < 0.22:
+            # carry-over: objects present before AND after one container change (the graph stays a tree)
+            c = rng.random()
+            if c < 0.2:
+                return ["rv", o]
+            if c < 0.35:
+                return ["so", o]
+            if c < 0.5:
+                return ["ro", o]
+            if c < 0.65:
+                return ["kp", o, rng.randint(0, min(n, 2)), rng.choice([0, 1, 2]) if room else 0]
+            if eq:
+                return ["rv", o]
+            if c < 0.85:
+                return ["kc", o, rng.randint(0, min(n, 2)), rng.choice([0, 1, 1, 2]) if room else 0]
+            return ["kr", o]
         if eq and n and room and rng.random() < 0.45:
             if rng.random() < 0.5:
                 return ["si", o, rng.randrange(n)]
@@ -242,6 +266,8 @@ def _op_on(rng, sh, o, a, cap, eq=False):
         return ["sk", o, 0]
     keys = list(sh.byname[o])
     r = rng.random()
+    if keys and not eq and rng.random() < 0.12:
+        return ["bd", o, rng.choice([0, 1, 1, 1, 2])]
     if not room:
         r = 0.6 + r * 0.4
     if r < 0.12:
@@ -371,10 +397,15 @@ def _alphabet(name):
             if a == "c":
                 al += [["sc", o, 1], ["sc", o, 0]]
             elif a == "k":
-                al += [["sk", o, 1], ["ap", o], ["dl", o, 0], ["sl", o, 0, 1, 1], ["si", o, 0], ["cl", o]]
+                al += [["sk", o, 1], ["ap", o], ["dl", o, 0], ["sl", o, 0, 1, 1], ["si", o, 0], ["cl", o],
+                       ["rv", o], ["ro", o], ["kp", o, 1, 1]]
+                if not name.startswith("E"):
+                    al += [["kc", o, 1, 1], ["kr", o]]
             else:
                 al += [["sb", o, 1], ["ds", o, 0], ["ds", o, 2], ["du", o, 0, 2], ["di", o, 3, 0, 1], ["sd", o, 4],
                        ["dd", o, 0], ["dq", o], ["dc", o]]
+                if not name.startswith("E"):
+                    al += [["bd", o, 1]]
     return al
 
 
@@ -430,7 +461,8 @@ class World:
             w.legacy.append((w.idof.get(id(obj), -1), SHORT.get(name, name), None, new))
 
         def rec2(name, new):
-            w.legacy.append((w.current[0], SHORT.get(name, name), None, new))
+            # (object, trait) are those of the running change; the name given is kept for the oracle
+            w.legacy.append(w.current + (name, new))
 
         def rec1(new):
             w.legacy.append(w.current + (None, new))
@@ -464,12 +496,14 @@ class World:
             w.observed.append(w.canon_event(event))
         self.oh = oh
 
-    def new(self, like=None, cls=None):
+    def new(self, like=None, cls=None, copy=False):
         """A fresh object; with value-equality nodes a replacement is an equal CLONE of the
         object it replaces (value copied before the object is inserted anywhere)."""
         o = (cls or self.Node)()
-        if self.eq and like is not None:
+        if (self.eq or copy) and like is not None:
             o.value = like.value
+            if copy:
+                o.aux = like.aux
         self.idof[id(o)] = len(self.pool)
         self.pool.append(o)
         return o
@@ -592,7 +626,10 @@ class World:
         if k == "sc":
             old = o.__dict__.get("child")
             self.current = (i, "c")
-            new = self.new() if a[1] else None
+            if a[1] == 2 and not self.eq:
+                new = self.new(old, copy=True)     # fresh, but with the scalars of the object it replaces
+            else:
+                new = self.new() if a[1] else None
             o.child = new
             return (i, "c", old is not new)
         if k == "sk":
@@ -630,6 +667,34 @@ class World:
                 return (i, "ki", hi > lo or cnt > 0)
             o.kids.clear()
             return (i, "ki", n > 0)
+        if k in ("rv", "so", "ro", "kp"):
+            self.current = (i, "ki")
+            cur = list(o.__dict__.get("kids", ()))
+            if k == "rv":
+                o.kids.reverse()
+            elif k == "so":
+                pos = dict((id(x), t) for t, x in enumerate(cur))
+                o.kids.sort(key=lambda x: -pos[id(x)])
+            elif k == "ro":
+                o.kids[:] = cur[1:] + cur[:1]
+            else:
+                o.kids[:] = cur[a[1]:] + self.fresh(a[2])
+            return (i, "ki", bool(cur) or (k == "kp" and a[2] > 0))
+        if k in ("kc", "kr"):
+            if self.eq:
+                return None      # whether the trait fires would depend on == of the items
+            self.current = (i, "k")
+            cur = list(o.__dict__.get("kids", ()))
+            new = cur[::-1] if k == "kr" else cur[a[1]:] + self.fresh(a[2])
+            o.kids = new
+            return (i, "k", [id(x) for x in cur] != [id(x) for x in new])
+        if k == "bd":
+            if self.eq:
+                return None
+            self.current = (i, "b")
+            cur = list(o.__dict__.get("byname", {}).items())
+            o.byname = dict(reversed(cur[a[1]:]))
+            return (i, "b", min(a[1], len(cur)) > 0)
         if k == "sb":
             keys = list(dict.fromkeys(a[1:]))
             old = dict(o.__dict__.get("byname", {}))
